@@ -398,7 +398,22 @@ func ruleTBLmodels(w *World, r *Report) {
 			cal := strings.ToLower(nodeCallee(e))
 			r.Cond(strings.Contains(cal, c), "TBL-models", "arm:"+c+":helper", w.Pos(e.Pos()), "dispatches to "+nodeCallee(e), "the \""+c+"\" entry dispatches to "+nodeCallee(e)+", not to the "+c+" model")
 		}
-		r.Cond(tableDefault != nil && strings.Contains(strings.ToLower(nodeCallee(tableDefault)), "exponential"), "TBL-models", "default:exponential", w.Pos(fi.Decl.Pos()), "unknown model names fall back to the exponential model", "the fall-back after the table look-up of calculateTimeDecayModel is not the exponential model (unknown model names and per-memory overrides with typos change meaning)")
+		// the fall-back: a call of the exponential curve after the look-up, or a second look-up under a constant key whose
+		// entry is that curve (`if !known { decay = table["exponential"] }`)
+		fallsBack := tableDefault != nil && strings.Contains(strings.ToLower(nodeCallee(tableDefault)), "exponential")
+		ast.Inspect(fi.Decl.Body, func(m ast.Node) bool {
+			ix, ok := m.(*ast.IndexExpr)
+			if !ok {
+				return true
+			}
+			if tv := info.Types[ix.Index]; tv.Value != nil && tv.Value.Kind() == constant.String {
+				if e := tableArms[constant.StringVal(tv.Value)]; e != nil && strings.Contains(strings.ToLower(nodeCallee(e)), "exponential") {
+					fallsBack = true
+				}
+			}
+			return true
+		})
+		r.Cond(fallsBack, "TBL-models", "default:exponential", w.Pos(fi.Decl.Pos()), "unknown model names fall back to the exponential model", "the fall-back after the table look-up of calculateTimeDecayModel is not the exponential model (unknown model names and per-memory overrides with typos change meaning)")
 	}
 	calleeOf := func(cc *ast.CaseClause) string {
 		out := ""
